@@ -463,7 +463,10 @@ impl<'a> Conv<'a> {
                 }
             },
             Int(i) => {
-                if i.abs() >= MAX_MAG {
+                if *i >= MAX_MAG {
+                    // beyond TLC's own integers: written out; SyltSem reads it as a 64-bit word (SyltNum64)
+                    json!({"k":"raw","text":i.to_string(),"num":"int"})
+                } else if *i <= -MAX_MAG {
                     self.why("int-literal-beyond-model-magnitude");
                     json!({"k":"nil"})
                 } else {
